@@ -328,12 +328,7 @@ func (p *parser) ifStatement() ast.Statement {
 		p.setScope(thenScope)
 		Then = p.checkedDeclaration() // parse the single (non-block) statement
 		p.exitScope()
-		Then = &ast.BlockStmt{
-			Range:      Then.GetRange(),
-			Colon:      *comma,
-			Statements: []ast.Statement{Then},
-			Symbols:    thenScope,
-		}
+		Then = p.singleStatementBlock(Then, comma, thenScope)
 	}
 	var Else ast.Statement = nil
 	// parse a possible sonst statement
@@ -347,12 +342,7 @@ func (p *parser) ifStatement() ast.Statement {
 				p.setScope(elseScope)
 				Else = p.checkedDeclaration()
 				p.exitScope()
-				Else = &ast.BlockStmt{
-					Range:      Else.GetRange(),
-					Colon:      *_else,
-					Statements: []ast.Statement{Else},
-					Symbols:    elseScope,
-				}
+				Else = p.singleStatementBlock(Else, _else, elseScope)
 			}
 		} else {
 			p.decrease()
@@ -398,12 +388,7 @@ func (p *parser) whileStatement() ast.Statement {
 		p.setScope(bodyTable)
 		Body = p.checkedDeclaration()
 		p.exitScope()
-		Body = &ast.BlockStmt{
-			Range:      Body.GetRange(),
-			Colon:      *is,
-			Statements: []ast.Statement{Body},
-			Symbols:    bodyTable,
-		}
+		Body = p.singleStatementBlock(Body, is, bodyTable)
 	}
 	p.resolver.LoopDepth--
 	return &ast.WhileStmt{
@@ -509,15 +494,8 @@ func (p *parser) forStatement() ast.Statement {
 			stmt := p.checkedDeclaration()
 			p.exitScope()
 			// wrap the single statement in a block for variable-scoping of the counter variable in the resolver and typechecker
-			Body = &ast.BlockStmt{
-				Range: token.Range{
-					Start: token.NewStartPos(Colon),
-					End:   stmt.GetRange().End,
-				},
-				Colon:      *Colon,
-				Statements: []ast.Statement{stmt},
-				Symbols:    bodyTable,
-			}
+			Body = p.singleStatementBlock(stmt, Colon, bodyTable)
+			Body.Range.Start = token.NewStartPos(Colon)
 		}
 		p.resolver.LoopDepth--
 		return &ast.ForStmt{
@@ -587,15 +565,8 @@ func (p *parser) forStatement() ast.Statement {
 			stmt := p.checkedDeclaration()
 			p.exitScope()
 			// wrap the single statement in a block for variable-scoping of the counter variable in the resolver and typechecker
-			Body = &ast.BlockStmt{
-				Range: token.Range{
-					Start: token.NewStartPos(Colon),
-					End:   stmt.GetRange().End,
-				},
-				Colon:      *Colon,
-				Statements: []ast.Statement{stmt},
-				Symbols:    bodyTable,
-			}
+			Body = p.singleStatementBlock(stmt, Colon, bodyTable)
+			Body.Range.Start = token.NewStartPos(Colon)
 		}
 		p.resolver.LoopDepth--
 		return &ast.ForRangeStmt{
@@ -708,4 +679,20 @@ func (p *parser) todoStmt() ast.Statement {
 
 func (p *parser) expressionStatement() ast.Statement {
 	return p.finishStatement(&ast.ExprStmt{Expr: p.expression()})
+}
+
+// wraps the single statement of a body that is not a block into a block
+// stmt is nil if the statement was no Ast node (an alias declaration), then the block is empty
+func (p *parser) singleStatementBlock(stmt ast.Statement, colon *token.Token, symbols ast.SymbolTable) *ast.BlockStmt {
+	block := &ast.BlockStmt{
+		Range:      token.NewRange(colon, p.previous()),
+		Colon:      *colon,
+		Statements: []ast.Statement{},
+		Symbols:    symbols,
+	}
+	if stmt != nil {
+		block.Range = stmt.GetRange()
+		block.Statements = append(block.Statements, stmt)
+	}
+	return block
 }
